@@ -924,9 +924,11 @@ impl World {
                         let authed = conn.c.verif_probe().authed_packets - pre_authed;
                         let post_rx = format!("{:?}", conn.c.stats().frame_rx);
                         if authed > 0 {
-                            // unprotected packet types (Retry, Version Negotiation) bump the counter
-                            // before they are validated; noted, judged by their effects only
+                            // (being counted as authenticated is what restarts the idle and
+                            // keep-alive timers and what makes a client ignore a later Retry or
+                            // Version Negotiation)
                             self.mon.cnt.inc("c04.forged_counted_as_authenticated");
+                            self.led.violate("C04", format!("conn {ei}/{}: a forged datagram ({} bytes, first byte {:02x}) was counted as an authenticated packet", ch.0, d.data.len(), d.data[0]));
                         }
                         if post_rx != pre_rx {
                             let diff: Vec<String> = pre_rx.split(", ").zip(post_rx.split(", ")).filter(|(a, b)| a != b).map(|(a, b)| format!("{a} -> {b}")).collect();
